@@ -10,11 +10,16 @@
 #define CHAIN_MAX 9
 #endif
 static _Bool verdict[2][2][2];           /* [name a/b][arg empty?][low bit of first arg byte] -> pass? */
-static int consulted, consulted_after_drop, dropped, consulted_unknown;
+static int consulted, consulted_after_drop, dropped, consulted_unknown, arg_wrong;
+static const char *g_chain; static size_t seg_start[CHAIN_MAX + 1], seg_len[CHAIN_MAX + 1]; static int nseg;   /* argument text of the j-th known element (reference parser) */
 static int known(const char *n){ return (n[0] == 'a' || n[0] == 'b') && n[1] == 0; }
 int snoopy_filterregistry_doesNameExist(char const * const n){ return known(n) ? SNOOPY_TRUE : SNOOPY_FALSE; }
 int snoopy_filterregistry_callByName(char const * const n, char const * const a){
   if (!known(n)) { consulted_unknown++; return -1; }
+  /* the argument is the element's own text after its first ':' - all of it (not cut to some smaller buffer), nothing else */
+  if (consulted < nseg) { size_t l = 0; while (a[l] != 0 && l <= CHAIN_MAX) l++;
+    if (l != seg_len[consulted]) arg_wrong = 1; else for (size_t i = 0; i < CHAIN_MAX; i++) if (i < l && a[i] != g_chain[seg_start[consulted] + i]) arg_wrong = 1; }
+  else arg_wrong = 1;
   consulted++; if (dropped) consulted_after_drop++;
   _Bool p = verdict[n[0] == 'b'][a[0] == 0][a[0] & 1];
   if (!p) dropped = 1;
@@ -29,6 +34,7 @@ static int spec(const char *c){
     size_t colon = s; while (colon < i && c[colon] != ':') colon++;
     if (colon - s == 1 && (c[s] == 'a' || c[s] == 'b')) {       /* known name */
       char a0 = (colon < i && colon + 1 < i) ? c[colon + 1] : 0;
+      seg_start[nseg] = colon < i ? colon + 1 : i; seg_len[nseg] = colon < i ? i - colon - 1 : 0; nseg++;
       if (!verdict[c[s] == 'b'][a0 == 0][a0 & 1]) pass = 0;
     }
   }
@@ -39,9 +45,11 @@ void harness(void){
   for (int i = 0; i < CHAIN_MAX; i++) chain[i] = nondet_char();
   chain[CHAIN_MAX] = 0;
   for (int a = 0; a < 2; a++) for (int b = 0; b < 2; b++) for (int c = 0; c < 2; c++) verdict[a][b][c] = nondet_bool();
-  consulted = consulted_after_drop = dropped = consulted_unknown = 0;
+  consulted = consulted_after_drop = dropped = consulted_unknown = arg_wrong = 0; nseg = 0; g_chain = chain;
+  int expected = spec(chain);                       /* also fills the expected argument segments */
   int r = snoopy_filtering_check_chain(chain);
-  __CPROVER_assert(r == spec(chain), "filter chain: the decision is the conjunction over the known elements of the chain (reference parser)");
+  __CPROVER_assert(!arg_wrong, "filter chain: each consulted filter gets its element's own argument text, whole");
+  __CPROVER_assert(r == expected, "filter chain: the decision is the conjunction over the known elements of the chain (reference parser)");
   __CPROVER_assert(consulted_unknown == 0, "filter chain: unknown names are never called");
   __CPROVER_assert(consulted_after_drop == 0, "filter chain: nothing is consulted after a drop");
   VERIF_CANARY();
